@@ -13,6 +13,7 @@ import (
 
 // Run is the state of one native replay.
 type Run struct {
+	enum    *enumState
 	Vals    [][2]interface{} // name, value in call order
 	Params  map[string]int
 	idx     int
@@ -46,7 +47,11 @@ func Lookup(name string) func() { return registry[name] }
 
 // Execute runs harness f natively on the given vector.
 func Execute(f func(), vals [][2]interface{}, params map[string]int) (out Outcome) {
-	cur = &Run{Vals: vals, Params: params}
+	return executeWith(f, &Run{Vals: vals, Params: params})
+}
+
+func executeWith(f func(), run *Run) (out Outcome) {
+	cur = run
 	defer func() {
 		out.Digest = cur.Digest
 		out.Covers = cur.Covers
@@ -76,9 +81,66 @@ func Execute(f func(), vals [][2]interface{}, params map[string]int) (out Outcom
 	return
 }
 
+// enumState drives exhaustive native enumeration over small domains.
+type enumState struct {
+	prefix []int // index into the domain of each request so far
+	sizes  []int // domain size of each request of the current run
+	alpha  []byte
+	ints   []int64
+	trace  [][2]interface{}
+}
+
+func (e *enumState) pick(name string, dom []int64) int64 {
+	i := len(e.sizes)
+	e.sizes = append(e.sizes, len(dom))
+	k := 0
+	if i < len(e.prefix) {
+		k = e.prefix[i]
+	}
+	v := dom[k]
+	e.trace = append(e.trace, [2]interface{}{name, v})
+	return v
+}
+
+func rangeDom(k int) []int64 {
+	d := make([]int64, k)
+	for i := range d {
+		d[i] = int64(i)
+	}
+	return d
+}
+
+// Enumerate runs f natively on every combination of values from small
+// domains: bytes from alphabet, integers from ints, Choose(k) from 0..k-1.
+// It is used to validate oracles against the real build by brute force.
+func Enumerate(f func(), params map[string]int, alphabet []byte, ints []int64, maxRuns int, report func(vec [][2]interface{}, out Outcome)) int {
+	stack := [][]int{{}}
+	runs := 0
+	for len(stack) > 0 && (maxRuns <= 0 || runs < maxRuns) {
+		pre := stack[len(stack)-1]
+		stack = stack[:len(stack)-1]
+		st := &enumState{prefix: pre, alpha: alphabet, ints: ints}
+		out := executeWith(f, &Run{Params: params, enum: st})
+		runs++
+		report(st.trace, out)
+		for pos := len(st.sizes) - 1; pos >= len(pre); pos-- {
+			for alt := st.sizes[pos] - 1; alt >= 1; alt-- {
+				np := make([]int, pos+1)
+				copy(np, pre)
+				np[pos] = alt
+				stack = append(stack, np)
+			}
+		}
+	}
+	return runs
+}
+
 func next(name string) int64 {
 	if cur == nil {
 		panic("rt: nondeterministic input requested outside a replay")
+	}
+	if cur.enum != nil {
+		panic("rt: untyped request in enumeration mode")
 	}
 	if cur.idx >= len(cur.Vals) {
 		cur.idx++
@@ -113,14 +175,56 @@ func next(name string) int64 {
 	return 0
 }
 
-func Byte(name string) byte   { return byte(next(name)) }
-func Int(name string) int     { return int(next(name)) }
-func Int64(name string) int64 { return next(name) }
-func Rune(name string) rune   { return rune(next(name)) }
-func Bool(name string) bool   { return next(name)&1 == 1 }
+func byteDom(e *enumState) []int64 {
+	d := make([]int64, len(e.alpha))
+	for i, b := range e.alpha {
+		d[i] = int64(b)
+	}
+	return d
+}
+
+func Byte(name string) byte {
+	if cur != nil && cur.enum != nil {
+		return byte(cur.enum.pick(name, byteDom(cur.enum)))
+	}
+	return byte(next(name))
+}
+func Int(name string) int {
+	if cur != nil && cur.enum != nil {
+		return int(cur.enum.pick(name, cur.enum.ints))
+	}
+	return int(next(name))
+}
+func Int64(name string) int64 {
+	if cur != nil && cur.enum != nil {
+		return cur.enum.pick(name, cur.enum.ints)
+	}
+	return next(name)
+}
+func Rune(name string) rune {
+	if cur != nil && cur.enum != nil {
+		return rune(cur.enum.pick(name, append([]int64{0x41, 0xE9, 0x20AC, 0x1F600, 0xFFFD}, byteDom(cur.enum)...)))
+	}
+	return rune(next(name))
+}
+func Bool(name string) bool {
+	if cur != nil && cur.enum != nil {
+		return cur.enum.pick(name, []int64{0, 1}) == 1
+	}
+	return next(name)&1 == 1
+}
 
 // IntRange is a symbolic int assumed to lie in [lo,hi].
 func IntRange(name string, lo, hi int) int {
+	if cur != nil && cur.enum != nil {
+		dom := []int64{int64(lo)}
+		for _, x := range []int64{int64(lo) + 1, int64(lo) + 7, int64(hi)} {
+			if x > int64(lo) && x <= int64(hi) {
+				dom = append(dom, x)
+			}
+		}
+		return int(cur.enum.pick(name, dom))
+	}
 	v := int(next(name))
 	if v < lo || v > hi {
 		panic(assumeFailed{})
@@ -130,6 +234,12 @@ func IntRange(name string, lo, hi int) int {
 
 // Choose forks k ways (concrete under the engine).
 func Choose(name string, k int) int {
+	if cur != nil && cur.enum != nil {
+		if k <= 1 {
+			return 0
+		}
+		return int(cur.enum.pick(name, rangeDom(k)))
+	}
 	v := int(next(name))
 	if v < 0 || v >= k {
 		if k <= 1 {
